@@ -211,7 +211,7 @@ impl Sut for QfSut {
             .f
             .verif_slots()
             .iter()
-            .map(|s| (s.0 as u64) + 2 * (s.1 as u64) + 4 * (s.2 as u64) + 8 * s.3)
+            .map(|s| s.3.saturating_mul(8).saturating_add((s.0 as u64) + 2 * (s.1 as u64) + 4 * (s.2 as u64)))
             .collect();
         json!({"sl": sl, "n": self.f.len()})
     }
